@@ -248,7 +248,7 @@ func TestVerifPoolRun(t *testing.T) {
 		select {
 		case <-shutDone:
 			r.ShutdownReturned = true
-		case <-time.After(5 * time.Second):
+		case <-time.After(12 * time.Second):
 		}
 		close(stop)
 		callersDone := make(chan struct{})
@@ -256,7 +256,7 @@ func TestVerifPoolRun(t *testing.T) {
 		select {
 		case <-callersDone:
 			r.CallsReturned = true
-		case <-time.After(5 * time.Second):
+		case <-time.After(12 * time.Second):
 		}
 		select {
 		case <-runDone:
@@ -297,7 +297,7 @@ func TestVerifPoolRun(t *testing.T) {
 			case <-afterDone:
 				r.AfterReturned = true
 				r.After = after
-			case <-time.After(5 * time.Second):
+			case <-time.After(12 * time.Second):
 			}
 		}
 		runtime.GOMAXPROCS(prev)
